@@ -26,6 +26,9 @@ type Harness struct {
 	Rule string
 	Real []string
 	Stub []string
+	// SpinIsViolation: reaching MaxSteps is reported as a livelock instead of being counted inconclusive (for
+	// harnesses whose runs need only a small fraction of MaxSteps).
+	SpinIsViolation bool
 	// Setup runs before every simulated run, outside the bubble.
 	Setup func()
 	// Post runs after the bubble has ended (outside it), e.g. to check a
@@ -131,6 +134,16 @@ func (h *Harness) runOnce(t *testing.T, seed int64, tier string, tapes *[3][]int
 	r.finished = true
 	if h.Post != nil && r.violClass == "" && !r.Stuck && !r.StepLimit {
 		h.Post(r)
+	}
+	if r.StepLimit && r.violClass == "" && h.SpinIsViolation {
+		var sb strings.Builder
+		for _, ti := range r.aliveAll() {
+			fmt.Fprintf(&sb, " %s(%s)@%s/%s", ti.ID, ti.Name, ti.Site, ti.State)
+		}
+		r.violClass = "livelock"
+		r.violMsg = fmt.Sprintf("the run took more than %d scheduling steps without finishing (the harness needs a small fraction of that): a task is spinning; tasks:%s", r.MaxSteps, sb.String())
+		r.log = append(r.log, "VIOLATION livelock:"+sb.String())
+		r.StepLimit = false
 	}
 	if r.Stuck && r.violClass == "" {
 		var sb strings.Builder
